@@ -10,6 +10,8 @@
 using namespace bpp;
 using namespace std;
 
+constexpr int NumCalcApplicationTools::MAX_SEQUENCE_LENGTH;
+
 vector<int> NumCalcApplicationTools::seqFromString(const std::string& s, const std::string& delim, const std::string& seqdelim)
 {
   vector<int> seq;
@@ -25,7 +27,7 @@ vector<int> NumCalcApplicationTools::seqFromString(const std::string& s, const s
       long long length = static_cast<long long>(to) - static_cast<long long>(from);
       if (length < 0)
         length = -length;
-      if (length >= 10000000)
+      if (length >= MAX_SEQUENCE_LENGTH)
         throw Exception("NumCalcApplicationTools::seqFromString. Range too long: " + st2->getToken(0) + seqdelim + st2->getToken(1));
       vector<int> tmp = VectorTools::seq(from, to, 1);
       VectorTools::append(seq, tmp);
@@ -90,7 +92,7 @@ vector<double> NumCalcApplicationTools::getVector(const std::string& desc)
       double step = TextTools::toDouble(keyvals["step"]);
       if (!(step > 0))
         throw Exception("Unvalid sequence specification, 'step' must be positive: " + desc);
-      if (!((end + NumConstants::TINY() - start) / step < 10000000.))
+      if (!((end + NumConstants::TINY() - start) / step < static_cast<double>(MAX_SEQUENCE_LENGTH)))
         throw Exception("Unvalid sequence specification, too many values: " + desc);
       for (double x = start; x <= end + NumConstants::TINY(); x += step)
       {
@@ -120,8 +122,8 @@ vector<double> NumCalcApplicationTools::getVector(const std::string& desc)
     else
     {
       int size = TextTools::toInt(keyvals["size"]);
-      if (size < 1 || size > 10000000)
-        throw Exception("Unvalid sequence specification, 'size' must be between 1 and 10000000: " + desc);
+      if (size < 1 || size > MAX_SEQUENCE_LENGTH)
+        throw Exception("Unvalid sequence specification, 'size' must be between 1 and " + TextTools::toString(MAX_SEQUENCE_LENGTH) + ": " + desc);
       double step = (end - start) / (double)size;
       for (int i = 0; i < size - 1; i++)
       {
